@@ -94,6 +94,17 @@ pub fn c18() -> i32 {
                     s.horizon = 0;
                     s.probe = rounds;
                     s.checks = CK_C02 | CK_C04;
+                    // the same host with one and two spectators (its only endpoints)
+                    if drain || w == 8 {
+                        for nspec in [1usize, 2] {
+                            let mut x = s.clone();
+                            for k in 0..nspec {
+                                x.specs.push(SpecSpec::new(20 + k as u8, 10));
+                            }
+                            x.name = format!("{} spectators={nspec}", x.name);
+                            scns.push(x);
+                        }
+                    }
                     scns.push(s);
                 }
             }
